@@ -42,11 +42,16 @@ class Ctx:
     explanation: str = ""
     minimums: dict[str, int] = field(default_factory=dict)
     t0: float = field(default_factory=time.time)
+    _seen: set = field(default_factory=set)
 
     # -- recording ----------------------------------------------------------
     def ob(self, rule: str, construct: str, ok: bool | str, detail: str = "", site: str = "",
            nontrivial: bool = True) -> bool:
         verdict = ok if isinstance(ok, str) else (PASS if ok else FAIL)
+        key = (rule, construct, verdict, detail)
+        if key in self._seen:          # the same obligation reached along another path
+            return verdict == PASS
+        self._seen.add(key)
         self.obs.append(Ob(rule, construct, verdict, detail, site, nontrivial))
         return verdict == PASS
 
@@ -83,17 +88,18 @@ def finish(ctx: Ctx, level: str = "other") -> int:
     known = [k for k in load_known() if k["property"] == ctx.prop and k.get("status") == "known"]
     known_keys = {(k["rule"], k["construct"]): k for k in known}
 
-    for prefix, n in ctx.minimums.items():
-        got = sum(1 for o in ctx.obs if o.rule.startswith(prefix) and o.verdict != UNVERIFIED)
-        if got < n:
-            raise AnalysisError(
-                f"rule {prefix} matched {got} instances, fewer than the {n} confirmed on the reference tree "
-                f"(the rule no longer sees its sites)")
-
     fails = [o for o in ctx.obs if o.verdict == FAIL]
     violations, knowns = [], []
     for o in fails:
         (knowns if (o.rule, o.construct) in known_keys else violations).append(o)
+
+    if not violations:   # a rule that lost its sites must not pass vacuously
+        for prefix, n in ctx.minimums.items():
+            got = sum(1 for o in ctx.obs if o.rule.startswith(prefix) and o.verdict != UNVERIFIED)
+            if got < n:
+                raise AnalysisError(
+                    f"rule {prefix} matched {got} instances, fewer than the {n} confirmed on the reference tree "
+                    f"(the rule no longer sees its sites)")
 
     for o in knowns:
         k = known_keys[(o.rule, o.construct)]
